@@ -46,6 +46,13 @@ chk("C01", "exploration",
     "Requests come from the generated grammar (balanced quotes/parentheses, no NUL); loopback TCP only; the readv shim stands for arbitrary TCP segmentation.",
     "runtime monitor: reference CGI mapping + metamorphic relations (segmentation, front-end) with server-side read-schedule injection", "DESIGN.md section 4 / C01", "vsrv")
 
+chk("C02", "fault_enumeration",
+    "Valid http/scgi/fastcgi requests mutated by 9 generic operators and ~40 protocol-specific framing classes are sent to a real cppcms::service under random read schedules and ended by half-close, RST at a random offset or close; "
+    "monitors: process survival and ASan/UBSan silence, well-formed probes on other connections during and after, at-most-once handler/on_error calls per token (event log), close after peer EOF, definitely-invalid classes never served, "
+    "FastCGI error replies well-formed. Found and fixed: negative Content-Length, SCGI strlen over-read, three FastCGI framing defects, peer-reset crash in the HTTP front-end.",
+    "Lenient readings (non-numeric Content-Length as 0, soft 16 KiB header cap) are not alarms; reach is the generated classes plus random mutations, not all byte strings.",
+    "fault injection (mutated requests, resets, read schedules) with sanitizers + probe/exactly-once/close monitors over an event log", "DESIGN.md section 4 / C02", "vsrv")
+
 chk("C04", "exploration",
     "Generated rule sets (xhtml/html, tag kinds, boolean/integer/regex/uri/relative_uri/absolute_uri properties, comments and numeric entities on/off, six encodings) x grammar-generated and mutated inputs x "
     "{remove, escape} x replacement char: validate(filter(x)) holds, filter is idempotent, valid input is returned unchanged, accepted input is well-formed in the declared encoding, and an independent "
